@@ -1555,21 +1555,21 @@ pub fn property() -> Property {
             "the library has no builder for BGPsec CSRs; that kind is represented by the shipped example file only",
         ],
         subs: vec![
-            PropSub { name: "cert", strategy: cert_strategy, cases: |t| t.pick(16_000, 500_000), run: run_cert,
+            PropSub { name: "cert", strategy: cert_strategy, cases: |t| t.pick(48_000, 500_000), run: run_cert,
                 floors: &[("cert-ta", 0.08), ("cert-ca", 0.15), ("cert-ee", 0.15), ("cert-router", 0.08), ("blocks>=2", 0.3), ("inherit", 0.1), ("generalized-time", 0.2), ("utc-time", 0.2)] }.boxed(),
-            PropSub { name: "crl", strategy: crl_strategy, cases: |t| t.pick(6_000, 150_000), run: run_crl,
+            PropSub { name: "crl", strategy: crl_strategy, cases: |t| t.pick(18_000, 150_000), run: run_crl,
                 floors: &[("revoked-0", 0.05), ("revoked-2..7", 0.3), ("revoked-8..300", 0.05)] }.boxed(),
-            PropSub { name: "manifest", strategy: mft_strategy, cases: |t| t.pick(6_000, 150_000), run: run_mft,
+            PropSub { name: "manifest", strategy: mft_strategy, cases: |t| t.pick(18_000, 150_000), run: run_mft,
                 floors: &[("files-0", 0.05), ("files-2..7", 0.3), ("files-8..40", 0.05)] }.boxed(),
-            PropSub { name: "roa", strategy: roa_strategy, cases: |t| t.pick(8_000, 200_000), run: run_roa,
+            PropSub { name: "roa", strategy: roa_strategy, cases: |t| t.pick(24_000, 200_000), run: run_roa,
                 floors: &[("prefixes>=2", 0.4), ("both-families", 0.2), ("processed", 0.15)] }.boxed(),
-            PropSub { name: "aspa", strategy: aspa_strategy, cases: |t| t.pick(5_000, 100_000), run: run_aspa,
+            PropSub { name: "aspa", strategy: aspa_strategy, cases: |t| t.pick(15_000, 100_000), run: run_aspa,
                 floors: &[("providers-1", 0.1), ("providers-2..9", 0.25), ("providers-10..129", 0.08), ("providers-130..", 0.03), ("processed", 0.15)] }.boxed(),
-            PropSub { name: "csr", strategy: csr_strategy, cases: |t| t.pick(4_000, 80_000), run: run_csr,
+            PropSub { name: "csr", strategy: csr_strategy, cases: |t| t.pick(12_000, 80_000), run: run_csr,
                 floors: &[("repo-dir", 0.2), ("repo-no-trailing-slash", 0.15), ("notify", 0.2)] }.boxed(),
-            PropSub { name: "idcert", strategy: idcert_strategy, cases: |t| t.pick(4_000, 80_000), run: run_idcert,
+            PropSub { name: "idcert", strategy: idcert_strategy, cases: |t| t.pick(12_000, 80_000), run: run_idcert,
                 floors: &[("idcert-ta", 0.2), ("idcert-ee", 0.2)] }.boxed(),
-            PropSub { name: "sigmsg", strategy: sigmsg_strategy, cases: |t| t.pick(3_000, 60_000), run: run_sigmsg,
+            PropSub { name: "sigmsg", strategy: sigmsg_strategy, cases: |t| t.pick(9_000, 60_000), run: run_sigmsg,
                 floors: &[("content>=128", 0.2), ("content<128", 0.2)] }.boxed(),
             EnumSub { name: "fixtures", count: |_, _| 2, make: |_, _, idx| Fixture { idx }, run: run_fixture, exhaustive: false }.boxed(),
         ],
